@@ -1,18 +1,27 @@
 ----------------------------- MODULE S3AuthTrace -----------------------------
 (* Judge for C26: one "req" event per S3 request sent to the real gateway (with what
-   reached the filer), one "pol" event per policy document given to the real
-   iamapi.GetActions. Requests are independent (the driver restores the namespace
-   after every change), so there is no abstract state to carry. *)
+   reached the filer), one "sreq" event per streaming-signed upload (with the object found
+   afterwards), one "pol" event per policy document given to the real iamapi.GetActions.
+   Those are independent of each other (the driver restores the namespace after every
+   change). IAM executions carry state: "iamop" = one call of the real IAM API (with the
+   identities stored afterwards), "ireq" = a real S3 request signed with a key the IAM API
+   made; named / live are re-initialised by every reset line. *)
 EXTENDS S3Auth, TraceKit
 tvars == <<vars, kitvars>>
 TraceInit == Init /\ KitInit
-TraceReset == IsReset /\ UNCHANGED vars
+TraceReset == IsReset /\ named' = NamedInit /\ live' = LiveInit /\ UNCHANGED hist
 TraceSkip == SkipStep /\ UNCHANGED vars
 TReq == /\ IsEvent("req") /\ UNCHANGED vars
         /\ \/ Strict /\ (Reached(Ev) => Allowed(Ev))
            \/ Deviate("C26-authtype-bypass") /\ DevFormBypass(Ev)
            \/ Deviate("C26-postpolicy-no-authz") /\ DevPostPolicyNoAuthz(Ev)
+TSReq == IsEvent("sreq") /\ UNCHANGED vars /\ Strict /\ (SReqOK(Ev) = TRUE)
 TPol == IsEvent("pol") /\ UNCHANGED vars /\ Strict /\ PolicyOK(Ev.stmts, Ev.out)
-TraceNext == TraceReset \/ TraceSkip \/ TReq \/ TPol
+TIam == /\ IsEvent("iamop") /\ UNCHANGED hist
+        /\ \/ Strict /\ IamOp(Ev, FALSE)
+           \/ Deviate("C26-putuserpolicy-accumulates") /\ (PutAccumulates(Ev) = TRUE) /\ IamOp(Ev, TRUE)
+        /\ (IdsOKIn(Ev.ids, named') = TRUE)
+TIReq == IsEvent("ireq") /\ UNCHANGED vars /\ Strict /\ (IReqOK(Ev) = TRUE)
+TraceNext == TraceReset \/ TraceSkip \/ TReq \/ TSReq \/ TPol \/ TIam \/ TIReq
 TraceSpec == TraceInit /\ [][TraceNext]_tvars
 =============================================================================
